@@ -13,7 +13,7 @@ RULE = ('rate: call histories (1-14 calls; gaps/sleep overshoots/durations in ti
         'empty) files and possibly empty payloads; in half of the cache histories the server answers differently from call to call (empty '
         'answers, CRLF FASTA, GenBank records with complement()/join() features when rettype=gb) and every sequence returned by get_* is '
         'compared - id, residues, feature types, locations and strands - with read(payload) and with a hand-written expectation, cached or '
-        'not, and re-inspected after every later call; client (round 7): histories (1-8 calls, and long ones of 12-40 calls) on ONE client object over the whole API (fetch_seq/get_seq/fetch_basket/get_basket, client.path and path= incl. empty string / trailing slash / tilde / Path objects, ext None/empty/dotted, up to 9 ids incl. dotted, case variants, hidden names, duplicates in lists), api_key switched between calls (None, empty string, two keys), requests failing in requests.get or raise_for_status, per-request sleep overshoot and duration; start times, sleeps, key sent, files and results compared with run_C19_client; names: 275 (path, id, ext) triples incl. ids with slash, dot-dot, absolute ids, dotted extensions run through fetch_seq with the file system shimmed away and compared with the model file-name function; extra (oracle only): exhaustive timing boxes without key (length <= 4 quick / 7 thorough), with key after 9 immediate requests (length <= 3 / 5), and every key-switch sequence (length <= 3 / 6) after three kinds of past; non-trivial = distinct history in which a sleep happened (rate) or a cache hit happened (cache)')
+        'not, and re-inspected after every later call; client (round 7): histories (1-8 calls, and long ones of 12-40 calls) on ONE client object over the whole API (fetch_seq/get_seq/fetch_basket/get_basket, client.path and path= incl. empty string / trailing slash / tilde / Path objects, ext None/empty/dotted, up to 9 ids incl. dotted, case variants, hidden names, duplicates in lists), api_key switched between calls (None, empty string, two keys), requests failing in requests.get or raise_for_status, per-request sleep overshoot and duration; start times, sleeps, key sent, files and results compared with run_C19_client; names: 275 (path, id, ext) triples incl. ids with slash, dot-dot, absolute ids, dotted extensions run through fetch_seq with the file system shimmed away and compared with the model file-name function; extra (oracle only): exhaustive timing boxes without key (length <= 4 quick / 7 thorough), with key after 9 immediate requests (length <= 3 / 5), and every key-switch sequence (length <= 3 / 6) after three kinds of past; keyrate: 150 (2000) histories of 1-29 limiter calls with the key switched between calls against run_C19_fixed and the exact per-request oracle; corpus: the F53 witness; non-trivial = distinct history in which a sleep happened (rate) or a cache hit happened (cache)')
 TRUSTED = ['time.sleep sleeps at least its argument, perf_counter is monotone (environment assumptions of the model: eps >= 0, gap >= 0, dur >= 0)',
            'no time passes between recording a request time and issuing the request (the model identifies them)',
            'float arithmetic on multiples of 2^-10 s is exact (the harness uses only such times); ulp effects of real clocks are outside the model',
@@ -25,25 +25,29 @@ TRUSTED = ['time.sleep sleeps at least its argument, perf_counter is monotone (e
            '(Coq section variable R, read), applied to the text delivered by fetch_seq (file content or in-memory answer); that sugar.read depends on the text only - not on the '
            'file name/extension, a text-mode file vs StringIO, or earlier reads - is tested by the runs (CRLF payloads, ext different from the format, re-inspection), not proved']
 ASSUMPTIONS = ['single-threaded client', 'integer-tick virtual clock']
-LEVEL_TEXT = ('Coq theorems (35) over executable models of the whole of sugar/web/_entrez.py. RATE, for every call history with arbitrary non-negative arrival gaps, sleep '
-              'overshoots and request durations (failed requests count as starts): at most N starts in ANY half-open one-second window [x, x+W), x arbitrary (window_limit; N, W '
-              'regenerated); the limit is chosen per call: for ANY history of key switches never more than 10 starts in any window (window_limit_any_key; invariant: every '
-              'start no longer in the deque is at least W old), a key added later keeps 3 before / 10 after (key_added_later), a key REMOVED lets 10 keyless requests start in one '
-              'window (key_removed_refuted, pending fix keyswitch); sleep iff popleft branch and popped stamp younger than W (wait_sleeps_iff), in reachable states iff N requests '
-              'started within the last second (sleep_iff_window_full); the requests of any history of public calls on one client are such a limiter history '
-              '(client_window_limit, client_window_limit_const) and the start times the events report are its record (client_starts, client_starts_window, client_starts_window_const). CACHE: complete decision table of fetch_seq (fetch_decision_table, need_request_iff, eff_path_table); for ANY '
-              'history of fetch_seq/get_seq/fetch_basket/get_basket calls from any state, requests for a file <= (1 unless a non-empty file was there) + calls with overwrite + '
-              'requests that failed or were answered empty (cache_request_bound, cache_once_history), the file holds the last successful answer (file_is_last_answer), baskets are '
-              'one fetch per id occurrence in order, duplicates not merged (basket_shape, basket_nocache_requests_all); with the reader as an arbitrary function the result of get_seq '
-              'is first(read(payload)) cached or not (get_requested, get_cached, get_basket_reads_in_order); file names id.ext are injective iff extensions have no dot '
-              '(basename_inj, basename_collision, fname_inj, fname_in_dir, fname_absolute_id). The earlier per-key cache theorems (request_iff ... cache_once_const) are kept. '
-              'All models are tied to the real class by differential runs under a virtual clock and stub HTTP layer.')
+LEVEL_TEXT = ('Coq theorems (40) over executable models of the whole of sugar/web/_entrez.py (wait_before_request as repaired by fix a09a4a0 / F53, found in this round). RATE, for every '
+              'call history with arbitrary non-negative arrival gaps, sleep overshoots and request durations (failed requests count as starts): with one key setting the code is the '
+              'one-limit machine (const_key_is_run, trim_noop_when_fits) and at most N starts lie in ANY half-open one-second window [x, x+W), x arbitrary (window_limit; N, W '
+              'regenerated); the limit is chosen per call, and for ANY history of key switches every request starts at least one window after the request N places before it, N the limit '
+              'of THAT request (rate_limit_current_key), so every window containing a request start holds at most N starts up to it - the exact statement when the key changes inside a '
+              'window: at most 3 starts if its last request is keyless, never 4 keyless starts, at most 10 in all (window_limit_current_key, window_limit_any_key); the history that '
+              'defeated the code before the fix is limited (key_removed_limited); sleep iff the record holds N stamps and the oldest is younger than W (wait_sleeps_iff, '
+              'client_sleep_iff), in reachable states iff N requests started within the last second (sleep_iff_window_full), a cache hit never sleeps (cache_hit_no_sleep); the requests '
+              'of any history of public calls on one client are such a limiter history (client_window_limit, client_window_limit_const) and the start times the events report are its '
+              'record (client_starts, client_starts_window, client_starts_window_const). CACHE: complete decision table of fetch_seq (fetch_decision_table, need_request_iff, '
+              'eff_path_table); for ANY history of fetch_seq/get_seq/fetch_basket/get_basket calls from any state, requests for a file <= (1 unless a non-empty file was there) + calls '
+              'with overwrite + requests that failed or were answered empty (cache_request_bound, cache_once_history), the file holds the last successful answer '
+              '(file_is_last_answer), baskets are one fetch per id occurrence in order, duplicates not merged (basket_shape, basket_nocache_requests_all); with the reader as an '
+              'arbitrary function the result of get_seq is first(read(payload)) cached or not (get_requested, get_cached, get_basket_reads_in_order); file names id.ext are injective '
+              'iff extensions have no dot (basename_inj, basename_collision, fname_inj, fname_in_dir, fname_absolute_id). The earlier per-key cache theorems (request_iff ... '
+              'cache_once_const) are kept. All models are tied to the real class by differential runs under a virtual clock and stub HTTP layer.')
 LEVEL_NOTE = ('Trusted: Coq kernel/vm_compute, tools/gens/entrez.py, the harness (virtual clock, stub requests module), CPython deque/float/os, sugar.read as an oracle '
               '(section variable in Coq; in the runs its results are compared with read(payload) and hand-written expectations). '
               'Model assumptions: sleep overshoot/gaps/durations >= 0, zero delay between recording and sending a request, single thread, file names are normalised strings '
               '(ids/extensions without slash), case-sensitive file system (ids differing in case are different files), distinct directory strings other than a trailing slash do not alias. '
-              'Known: ids with a slash leave the cache directory (fname_absolute_id) or fail at open(); an extension with a dot can collide with a dotted id (basename_collision); '
-              'removing api_key from a used client keeps the 10-slot history (pending fix keyswitch). No axioms.')
+              'Known: ids with a slash leave the cache directory (fname_absolute_id) or fail at open(); an extension with a dot can collide with a dotted id (basename_collision). '
+              'F53 (api_key removed from a used client kept the 10-slot record) was found by this check, is fixed in /repo, witness in corpus/C19. The lemmas about the function '
+              'before the fix (run2, Inv2, key_removed_refuted) stay in proof/C19_Rate2.v but are no longer property theorems. No axioms.')
 TECHNIQUE = 'Coq invariant proof over a state machine with adversarial environment + differential correspondence under a virtual clock'
 
 VALS = [0, 0, 0, 1, 255, 256, 512, 1023, 1024, 1025, 2048, 300]
@@ -105,6 +109,7 @@ def gen_cases(rng, tier):
             calls.append(c)
         cases.append({'kind': 'cache', 'payloads': payloads, 'files': files, 'calls': calls})
     cases += gen_name_cases()
+    cases += [gen_fixed_case(rng) for _ in range(2000 if tier == 'thorough' else 150)]
     nclient, nlong = (4000, 300) if tier == 'thorough' else (500, 40)
     for _ in range(nclient):
         cases.append(gen_client_case(rng))
@@ -592,23 +597,25 @@ def spec_client(case, iv):
         for e in evs:
             if e[0]:
                 starts.append((e[1], e[3], e[2]))
-    # rate (the property's numbers): constant key -> 3 / 10; key switched on later -> 3 before, 10 after;
-    # any history -> never more than 10. PENDING FIX keyswitch: after the key was REMOVED the client keeps its 10-slot history and
-    # lets up to 10 keyless requests start within a second (see build/pending_fixes/C19_keyswitch.txt): only "<= 10" is checked there
+    # rate (the property's numbers): every request starts at least one second after the request N places before it, N = 3 or 10
+    # according to the key setting of THAT request (exact also when the key changes inside a window, F53); a request sleeps only
+    # if N requests started within the last second before its arrival
     W = TICKS
     ts = [t for t, _, _ in starts]
     if any(b < a for a, b in zip(ts, ts[1:])):
         return 'start times go backwards: %r' % ts
     for k in range(len(ts)):
-        lim_seq = [10 if kf else 3 for _, kf, _ in starts[:k + 1]]
-        N = lim_seq[-1] if all(a <= b for a, b in zip(lim_seq, lim_seq[1:])) else 10
+        N = 10 if starts[k][1] else 3
         if k - N >= 0 and ts[k] - ts[k - N] < W:
             return 'requests %d..%d (limit %d) start within %d < %d ticks' % (k - N, k, N, ts[k] - ts[k - N], W)
-        if starts[k][2] and len(set(lim_seq)) == 1:
+        if starts[k][2]:
             t = ts[k] - starts[k][2]
             recent = [x for x in ts[:k] if x > t - W]
             if len(recent) < N:
                 return 'request %d slept %d ticks although only %d requests started in the last second' % (k, starts[k][2], len(recent))
+        for x in (ts[k] - W + 1, ts[k]):      # windows ending / beginning at this start: at most N starts up to this one
+            if sum(1 for y in ts[:k + 1] if x <= y < x + W) > N:
+                return 'window [%d, %d) holds more than %d starts when request %d starts' % (x, x + W, N, k)
     return None
 
 
@@ -665,8 +672,38 @@ def impl_name(case):
         shutil.rmtree(root, ignore_errors=True)
 
 
+# ----------------------------------------------------------------------------- limiter alone, key switched between calls (fix a09a4a0 / F53)
+def impl_fixed(case):
+    w = _World()
+    w.install()
+    try:
+        client = w.E.Entrez(path=None, api_key=None)
+        w.payload = lambda seqid: '>x\nA\n'
+        slept = []
+        for key, (gap, eps, dur) in case['calls']:
+            client.api_key = 'KEY' if key else None
+            w.clock += gap
+            w.eps, w.dur, w.slept = eps, dur, None
+            client.fetch_seq('x')
+            slept.append(w.slept or 0)
+        return [w.starts, slept]
+    finally:
+        w.restore()
+
+
+def gen_fixed_case(rng):
+    n = rng.randrange(1, 30)
+    key = rng.random() < .5
+    calls = []
+    for _ in range(n):
+        if rng.random() < .2:
+            key = not key
+        calls.append([key, [0 if rng.random() < .6 else rng.choice(VALS), rng.choice([0, 0, 0, 1, 7]), rng.choice([0, 0, 1, 100])]])
+    return {'kind': 'fixed', 'calls': calls}
+
+
 def impl(case):
-    return {'rate': impl_rate, 'cache': impl_cache, 'client': impl_client, 'name': impl_name}[case['kind']](case)
+    return {'rate': impl_rate, 'cache': impl_cache, 'client': impl_client, 'name': impl_name, 'fixed': impl_fixed}[case['kind']](case)
 
 
 # ----------------------------------------------------------------------------- model terms
@@ -676,6 +713,8 @@ def model_term(case):
         return 'out (run_C19_rate %s %s)' % (coq_bool(case['api']), cs)
     if case['kind'] == 'client':
         return client_term(case)
+    if case['kind'] == 'fixed':
+        return 'out (run_C19_fixed %s)' % coq_list([coq_pair(coq_bool(k), coq_pair(coq_z(g), coq_z(e), coq_z(d))) for k, (g, e, d) in case['calls']])
     if case['kind'] == 'name':
         return 'out (run_C19_name %s %s %s)' % (coq_bs(case['path']), coq_bs(case['id']), coq_bs(case['ext']))
     files = coq_list([coq_pair(coq_N(p), coq_N(i), coq_N(e), coq_bs(ct)) for p, i, e, ct in case['files']])
@@ -696,7 +735,7 @@ def agree(case, iv, mv):
         return iv == mv
     if isinstance(iv, dict):
         return False
-    if case['kind'] in ('client', 'name'):
+    if case['kind'] in ('client', 'name', 'fixed'):
         return iv == mv
     flat = [x for call in iv for x in call]
     # a get_* call on several ids stops at the first failing read only after all fetches: fetch part is complete
@@ -736,6 +775,14 @@ def spec(case, iv):
         return None
     if case['kind'] == 'client':
         return spec_client(case, iv)
+    if case['kind'] == 'fixed':
+        # every request at least one second after the request N places before it, N the limit of its own key setting
+        starts = iv[0]
+        for k, (key, _) in enumerate(case['calls']):
+            N = 10 if key else 3
+            if k - N >= 0 and starts[k] - starts[k - N] < TICKS:
+                return 'requests %d..%d (limit %d) start within %d ticks' % (k - N, k, N, starts[k] - starts[k - N])
+        return None
     if case['kind'] == 'name':
         # the documented name <path>/<id>.<ext> for ids that are plain names; elsewhere the property is silent (see fname_absolute_id)
         if '/' in case['id'] or case['id'] in ('', '.') or '/' in case['ext']:
@@ -768,6 +815,8 @@ def nontrivial(case, iv):
         return None
     if case['kind'] == 'rate':
         return 'slept' if any(iv[1]) else None
+    if case['kind'] == 'fixed':
+        return 'slept' if any(iv[1]) else None
     if case['kind'] == 'name':
         return 'slash' if '/' in case['id'] + case['ext'] else 'plain'
     if case['kind'] == 'client':
@@ -781,6 +830,8 @@ def histkey(case, iv):
     if case['kind'] == 'rate':
         return ['rate', 'len=%d' % len(case['calls']), 'api' if case['api'] else 'nokey',
                 'slept' if not isinstance(iv, dict) and any(iv[1]) else 'noslept']
+    if case['kind'] == 'fixed':
+        return ['fixed']
     if case['kind'] == 'name':
         return ['name']
     if case['kind'] == 'client':
